@@ -42,4 +42,9 @@ MUTANTS = [
     M('C18', 'C: signal cadence widened', C, "#define SIGNAL_CHECK_MASK 0x3FFFFull", "#define SIGNAL_CHECK_MASK 0x3FFFFFFFFFull", 'C18.SIGNAL'),
     M('C18', 'EQ run: re-raise spelled bare', RUN, "    except FlipJumpException as fj_exception:\n        raise fj_exception\n",
       "    except FlipJumpException as fj_exception:\n        raise\n", None),
+    M('C18', 'native exception path no longer reports the last ops (F09 reverted)', 'flipjump/interpreter/fjm_run.py', "    except BaseException:\n        if last_ops is not None:\n            last_ops.extend(core.last_run_last_ops)  # the ops executed before the exception\n        raise\n", "", 'C18.STATS-ON-RAISE'),
+    M('C18', 'the last-ops handler swallows the exception', 'flipjump/interpreter/fjm_run.py', "            last_ops.extend(core.last_run_last_ops)  # the ops executed before the exception\n        raise\n", "            last_ops.extend(core.last_run_last_ops)  # the ops executed before the exception\n        return TerminationStatistics(statistics, TerminationCause.KeyboardInterrupt)\n", 'C18.CLASSIFY'),
+    M('C18', 'python-error branch drops the fetched exception', 'flipjump/interpreter/_fjcore.c', "            PyErr_Restore(error_type, error_value, error_traceback);\n            free(last_ops_ring);\n            return NULL;", "            free(last_ops_ring);\n            return NULL;", 'C18.CFAIL'),
+    M('C18', 'kept list is not cleared between runs', 'flipjump/interpreter/_fjcore.c', "    Py_CLEAR(self->last_run_last_ops);\n", "", 'C18.KEPT-RING'),
+    M('C18', 'kept list built with the wrong write count', 'flipjump/interpreter/_fjcore.c', "self->last_run_last_ops = last_ops_ring_to_list(last_ops_ring, last_ops_length, loop_ring_writes);", "self->last_run_last_ops = last_ops_ring_to_list(last_ops_ring, last_ops_length, loop_ops);", 'C18.KEPT-RING'),
 ]
